@@ -8,6 +8,7 @@ import (
 	"fmt"
 	"hash"
 	"hash/fnv"
+	"io"
 	"reflect"
 	"sort"
 	"sync/atomic"
@@ -131,6 +132,39 @@ func RunThreads(x *xplore.X, horizon int, poolChoices bool, bodies []func()) sch
 		vsync.BlockHook = s.Block
 		if poolChoices {
 			rt.ChooseHook = x.Choose
+		}
+	}, func() {
+		rt.PointHook, rt.SyncHook, vsync.BlockHook, rt.ChooseHook = nil, nil, nil, nil
+	})
+}
+
+// RunThreadsPaused is RunThreads with scheduling points (and explored pool answers) in thread 0 only: every other
+// thread runs from start to end (or to a blocking operation) once it has been given the processor.  This explores
+// "one call is paused at any of its statements while other threads complete arbitrarily MANY calls" - executions
+// that a symmetric exploration reaches only at a depth its bounds exclude (a ring of N slots lapped, a counter
+// wrapped, a cache turned over while one call still holds an entry).
+func RunThreadsPaused(x *xplore.X, horizon int, bodies []func()) sched.Result {
+	return sched.Run(x, horizon, bodies, func(s *sched.S) {
+		SyncPattern = SyncPattern[:0]
+		rt.PointHook = func(int) {
+			if s.Cur() == 0 {
+				s.Point()
+			}
+		}
+		rt.SyncHook = func(k string) {
+			if s.Cur() == 0 {
+				s.Point()
+			}
+			if len(SyncPattern) < 4096 {
+				SyncPattern = append(SyncPattern, byte('0'+s.Cur()), k[len(k)-1])
+			}
+		}
+		vsync.BlockHook = s.Block
+		rt.ChooseHook = func(n int, costly bool) int {
+			if s.Cur() == 0 {
+				return x.Choose(n, costly)
+			}
+			return 0
 		}
 	}, func() {
 		rt.PointHook, rt.SyncHook, vsync.BlockHook, rt.ChooseHook = nil, nil, nil, nil
@@ -403,3 +437,11 @@ func WatchStall(onStall func()) (stop func()) {
 	}()
 	return func() { close(quit) }
 }
+
+// SetRandom substitutes what the process-wide random source delivers without changing its identity (nil: the
+// operating system's source); SeamInstalled reports whether crypto/rand.Reader still is the seam.
+func SetRandom(r io.Reader) { rt.SetRandom(r) }
+func SeamInstalled() bool   { return rt.SeamInstalled() }
+
+// SeamLog is the record of every byte the random source has delivered through the seam, and whether it is complete.
+func SeamLog() ([]byte, bool) { return rt.SeamLog() }
